@@ -602,6 +602,18 @@ fn typed<T: Ty>(family: &str, tname: &str, aux: u64) -> (String, Box<dyn Mut>) {
         _ => (format!("EasyHashMap<{}>", tname), Box::new(Easy::<T>(EasyHashMap::with_default(T::v(7)), aux, Some(7), false))),
     }
 }
+/// GoldHashIdx<u64, [u64; 130]> (1040-byte values) on a pool of 1024-byte chunks: allocate_pooled_value refuses every value
+/// ("Value does not fit into a chunk of the memory pool"), so every insert / insert_batch returns Err and must leave the map
+/// as it was.  variant: 0 = with_pool(16), 1 = with_pool(0) (the first insert goes through resize first), 2 = with_pool(16)
+/// plus a twin on the same pool
+pub fn refusing_idx(variant: u64, aux: u64) -> (String, Box<dyn Mut>) {
+    let pool = zipora::memory::SecureMemoryPool::new(zipora::memory::SecurePoolConfig::small_secure()).expect("pool");
+    let cap = if variant == 1 { 0 } else { 16 };
+    let m = GoldHashIdx::with_pool(cap, pool.clone());
+    let twin = if variant == 2 { Some(GoldHashIdx::with_pool(cap, pool.clone())) } else { None };
+    (format!("GoldHashIdx<u64,[u64;130]>/refusing_pool{}", variant), Box::new(Idx::<BigV>(m, aux, twin)))
+}
+
 pub fn typed_cell(family: &str, ty: u64, aux: u64) -> (String, Box<dyn Mut>) {
     match ty {
         0 => typed::<U8K>(family, "u8,u64", aux),
